@@ -77,6 +77,7 @@ int main(int argc, char** argv){
     else if (v == "knots_pinf_last") { to_ext("KNOTS" + std::to_string(nd - 1)); std::vector<double> k2 = kn[nd - 1]; k2.back() = INFINITY; long fp = 1; fits_write_pix(f, TDOUBLE, &fp, k2.size(), k2.data(), &st); }
     else if (v == "knots_nan") { to_ext("KNOTS0"); std::vector<double> k2 = kn[0]; k2[1] = NAN; long fp = 1; fits_write_pix(f, TDOUBLE, &fp, k2.size(), k2.data(), &st); }
     else if (v == "extents_short") { to_ext("EXTENTS"); long n = 1; fits_resize_img(f, DOUBLE_IMG, 1, &n, &st); }
+    else if (v == "extents_long") { to_ext("EXTENTS"); long n = 2 * (long)nd + 100; fits_resize_img(f, DOUBLE_IMG, 1, &n, &st); }
     else if (v == "foreign") { for (unsigned d = 0; d < nd; d++) { st = 0; fits_delete_key(f, ("ORDER" + std::to_string(d)).c_str(), &st); } st = 0; fits_delete_key(f, "TYPE", &st); int n = 0; st = 0; fits_get_num_hdus(f, &n, &st); while (n > 1) { fits_movabs_hdu(f, n, &hd, &st); fits_delete_hdu(f, &hd, &st); n--; } }
     st = 0; fits_close_file(f, &st);
     int r = in_child(corrupt_child, 0); if (r == 3) bad = 1; else if (r >= 128) { printf("the process crashed (signal %d) reading the file or destroying the table\n", r - 128); bad = 1; }
